@@ -7,6 +7,7 @@ import (
 	"errors"
 	"context"
 	"fmt"
+	"slices"
 	"sort"
 	"strings"
 	"sync"
@@ -18,6 +19,7 @@ import (
 	"reduction.dev/reduction/config"
 	"reduction.dev/reduction/connectors"
 	"reduction.dev/reduction/jobs"
+	"reduction.dev/reduction/partitioning"
 	"reduction.dev/reduction/proto"
 	"reduction.dev/reduction/proto/jobpb"
 	"reduction.dev/reduction/proto/snapshotpb"
@@ -59,6 +61,8 @@ type call struct {
 	Ops    []string // deploy: the assembly's operators
 	SRs    []string
 	Ckpts  []uint64 // deploy-op: checkpoint ids handed over
+	Ranges [][2]int // deploy-op: the key-group range of each checkpoint part handed over
+	Groups int      // deploy-op: key-group count of the request
 	ID     uint64   // startckpt
 	Splits []string
 	At     time.Time
@@ -131,7 +135,9 @@ func (f *fakeOp) Deploy(ctx context.Context, r *workerpb.DeployOperatorRequest) 
 	}
 	for _, k := range r.Checkpoints {
 		c.Ckpts = append(c.Ckpts, k.CheckpointId)
+		c.Ranges = append(c.Ranges, [2]int{int(k.GetKeyGroupRange().GetStart()), int(k.GetKeyGroupRange().GetEnd())})
 	}
+	c.Groups = int(r.KeyGroupCount)
 	c.Round = strings.Join(c.Ops, ",") + "|" + strings.Join(c.SRs, ",")
 	f.w.rec(c)
 	f.w.gate()
@@ -335,6 +341,16 @@ func exec(p prog, c *hx.Case) error {
 	var pendingCkpt uint64
 	var acked map[string]bool
 	var curOps, curSRs []string // members of the last complete deploy round
+	// the key-group range an operator of the current assembly reports with its acknowledgements
+	ownRange := func(id string) *snapshotpb.KeyGroupRange {
+		for i, o := range curOps {
+			if o == id {
+				r := partitioning.NewKeySpace(8, len(curOps)).KeyGroupRanges()[i]
+				return &snapshotpb.KeyGroupRange{Start: int32(r.Start), End: int32(r.End)}
+			}
+		}
+		return &snapshotpb.KeyGroupRange{Start: 0, End: 8}
+	}
 	var snapshotCount func() (n int, newest uint64)
 	heartbeat := func() {
 		for _, x := range ws {
@@ -377,7 +393,7 @@ func exec(p prog, c *hx.Case) error {
 				acked[id] = true
 				if strings.HasPrefix(id, "op") {
 					job.HandleOperatorCheckpointComplete(context.Background(), &snapshotpb.OperatorCheckpoint{CheckpointId: pendingCkpt, OperatorId: id,
-						DkvFileUri: "/work/" + id + "/checkpoints", KeyGroupRange: &snapshotpb.KeyGroupRange{Start: 0, End: 8}})
+						DkvFileUri: "/work/" + id + "/checkpoints", KeyGroupRange: ownRange(id)})
 				} else {
 					job.HandleSourceRunnerCheckpointComplete(context.Background(), &jobpb.SourceRunnerCheckpointCompleteRequest{CheckpointId: pendingCkpt, SourceRunnerId: id, SplitStates: [][]byte{[]byte(id)}})
 				}
@@ -504,6 +520,32 @@ func exec(p prog, c *hx.Case) error {
 				}
 				if !ok {
 					return hx.Errf("step %d: the job deployed to %s, which is not a registered, live node", step, id)
+				}
+			}
+			// every operator is handed the parts of the checkpoint that overlap its
+			// own key-group range (its position among the assembly's operators), and
+			// together they cover that range
+			for _, cl := range r {
+				idx := -1
+				for i, id := range cl.Ops {
+					if id == cl.Node {
+						idx = i
+					}
+				}
+				if idx < 0 || len(cl.Ranges) == 0 || cl.Groups <= 0 {
+					continue
+				}
+				own := partitioning.NewKeySpace(cl.Groups, len(cl.Ops)).KeyGroupRanges()[idx]
+				covered := 0
+				for _, rg := range cl.Ranges {
+					lo, hi := max(rg[0], own.Start), min(rg[1], own.End)
+					if lo >= hi {
+						return hx.Errf("step %d: operator %s owns key groups [%d,%d) but was handed the checkpoint part that covers [%d,%d)", step, cl.Node, own.Start, own.End, rg[0], rg[1])
+					}
+					covered += hi - lo
+				}
+				if covered < own.End-own.Start {
+					return hx.Errf("step %d: operator %s owns key groups [%d,%d) but the checkpoint parts it was handed (%v) cover only %d of them", step, cl.Node, own.Start, own.End, cl.Ranges, covered)
 				}
 			}
 			// recovery starts from the latest completed checkpoint
@@ -731,6 +773,9 @@ func exec(p prog, c *hx.Case) error {
 					n = o.N
 				}
 				members := append(append([]string{}, curOps...), curSRs...)
+				if o.W%2 == 1 {
+					slices.Reverse(members) // (acknowledgements arrive in no particular order)
+				}
 				before, _ := snapshotCount() // (before the acknowledgement that completes the checkpoint is delivered)
 				for _, id := range members {
 					if n == 0 {
@@ -743,7 +788,7 @@ func exec(p prog, c *hx.Case) error {
 					n--
 					if strings.HasPrefix(id, "op") {
 						job.HandleOperatorCheckpointComplete(context.Background(), &snapshotpb.OperatorCheckpoint{CheckpointId: pendingCkpt, OperatorId: id,
-							DkvFileUri: "/work/" + id + "/checkpoints", KeyGroupRange: &snapshotpb.KeyGroupRange{Start: 0, End: 8}})
+							DkvFileUri: "/work/" + id + "/checkpoints", KeyGroupRange: ownRange(id)})
 					} else {
 						job.HandleSourceRunnerCheckpointComplete(context.Background(), &jobpb.SourceRunnerCheckpointCompleteRequest{CheckpointId: pendingCkpt, SourceRunnerId: id, SplitStates: [][]byte{[]byte(id)}})
 					}
@@ -852,5 +897,5 @@ func exec(p prog, c *hx.Case) error {
 }
 
 func TestPropJob(t *testing.T) {
-	hx.Run(t, hx.Spec{Prop: "C15", Persist: true, Rule: "the real jobs.Job (WorkerCount 1..3, in a third of the cases started from a savepoint made by a real Store, FrozenClock, journaling StorageLocation, harness source splitter) with recording fake operators and source runners: 3..40 steps of starting workers, graceful stops (deregistration), kills (heartbeats stop, clock passes the deadline), checkpoint-timer ticks, full or partial acknowledgements, injected Deploy failures, deployment windows (the Deploy calls of the next round block; meanwhile a drawn member deregisters or stops heartbeating, and in half of them the outstanding acknowledgements of the checkpoint that was pending on the replaced assembly arrive, which must not publish it; then the round is let go); after every step all live workers re-register and the recorded calls are examined: every deployment addresses exactly WorkerCount operators and runners that are registered and live, hands over the latest completed checkpoint, StartCheckpoint only goes to the current healthy assembly, a tick on a healthy idle assembly starts a checkpoint, full acknowledgement publishes a snapshot, and with enough live workers a lost assembly is replaced (bounded progress); non-trivial = >=1 recovery followed by a completed checkpoint"}, gen, exec)
+	hx.Run(t, hx.Spec{Prop: "C15", Persist: true, Rule: "the real jobs.Job (WorkerCount 1..3, in a third of the cases started from a savepoint made by a real Store, FrozenClock, journaling StorageLocation, harness source splitter) with recording fake operators and source runners: 3..40 steps of starting workers, graceful stops (deregistration), kills (heartbeats stop, clock passes the deadline), checkpoint-timer ticks, full or partial acknowledgements, injected Deploy failures, deployment windows (the Deploy calls of the next round block; meanwhile a drawn member deregisters or stops heartbeating, and in half of them the outstanding acknowledgements of the checkpoint that was pending on the replaced assembly arrive, which must not publish it; then the round is let go); after every step all live workers re-register and the recorded calls are examined: every deployment addresses exactly WorkerCount operators and runners that are registered and live, hands over the latest completed checkpoint (to each operator the parts that overlap its own key-group range), StartCheckpoint only goes to the current healthy assembly, a tick on a healthy idle assembly starts a checkpoint, full acknowledgement publishes a snapshot, and with enough live workers a lost assembly is replaced (bounded progress); non-trivial = >=1 recovery followed by a completed checkpoint"}, gen, exec)
 }
